@@ -425,32 +425,111 @@ fn proplist_checks(ctx: &Ctx, rng: &mut Rng) {
 }
 
 fn builder_checks(ctx: &Ctx, rng: &mut Rng) {
-    for _ in 0..ctx.pick(500, 50_000) {
+    const KEYS: &[&str] = &["a", "b", "name", "Elixir.K", "", "ключ", "timeout", "__struct__"];
+    for _ in 0..ctx.pick(800, 80_000) {
         ctx.eval(1);
-        let n = rng.below(6);
-        let mut kw = KeywordListBuilder::new();
+        let n = rng.below(8);
+        let mut kw = if rng.bool() { KeywordListBuilder::new() } else { KeywordListBuilder::with_capacity(rng.below(4)) };
         let mut mb = AtomKeyMapBuilder::new();
+        // the models: a keyword list keeps every pair in order; a map keeps the value put last under a key
         let mut model_list: Vec<(String, Val)> = Vec::new();
         let mut model_map: BTreeMap<String, Val> = BTreeMap::new();
+        let mut ops: Vec<String> = Vec::new();
+        let mut len_ok = true;
         for _ in 0..n {
-            let key = rng.pick(&["a", "b", "name", "Elixir.K", "", "ключ"]).to_string();
-            let v = member(rng);
-            model_list.push((key.clone(), val_of(&v)));
-            model_map.insert(key.clone(), val_of(&v));
-            kw = kw.put_term(&key, v.clone());
-            mb = mb.insert_term(&key, v);
+            let key: &'static str = *rng.pick(KEYS);
+            let op = rng.below(8);
+            match op {
+                0 => {
+                    let v = member(rng);
+                    model_list.push((key.to_string(), val_of(&v)));
+                    model_map.insert(key.to_string(), val_of(&v));
+                    kw = kw.put_term(key, v.clone());
+                    mb = mb.insert_term(key, v);
+                    ops.push(format!("put_term/insert_term {:?}", key));
+                }
+                1 => {
+                    let x = *rng.pick(I64S);
+                    model_list.push((key.to_string(), Val::int(x as i128)));
+                    model_map.insert(key.to_string(), Val::int(x as i128));
+                    kw = kw.put(key, x);
+                    mb = mb.insert(key, x);
+                    ops.push(format!("put/insert {:?} {}", key, x));
+                }
+                2 => {
+                    let a = *rng.pick(&["ok", "nil", "", "true", "Elixir.V"]);
+                    model_list.push((key.to_string(), Val::atom(a)));
+                    model_map.insert(key.to_string(), Val::atom(a));
+                    kw = kw.put_atom(key, a);
+                    mb = mb.insert_atom(key, a);
+                    ops.push(format!("put_atom/insert_atom {:?} {:?}", key, a));
+                }
+                3 => {
+                    model_list.push((key.to_string(), Val::atom("true")));
+                    kw = kw.put_flag(key);
+                    ops.push(format!("put_flag {:?}", key));
+                }
+                4 => {
+                    let cond = rng.bool();
+                    let x = rng.range(-5, 5);
+                    if cond {
+                        model_list.push((key.to_string(), Val::int(x as i128)));
+                        model_map.insert(key.to_string(), Val::int(x as i128));
+                    }
+                    kw = kw.put_if(cond, key, x);
+                    mb = mb.insert_if(cond, key, x);
+                    ops.push(format!("put_if/insert_if {} {:?} {}", cond, key, x));
+                }
+                5 => {
+                    let x: Option<i64> = if rng.bool() { Some(rng.range(-5, 5)) } else { None };
+                    if let Some(x) = x {
+                        model_list.push((key.to_string(), Val::int(x as i128)));
+                        model_map.insert(key.to_string(), Val::int(x as i128));
+                    }
+                    kw = kw.put_some(key, x);
+                    mb = mb.insert_some(key, x);
+                    ops.push(format!("put_some/insert_some {:?} {:?}", key, x));
+                }
+                _ => {
+                    // several pairs at once, keys that are already there and keys repeated within the batch included
+                    let batch: Vec<(&'static str, i64)> = (0..rng.below(4)).map(|_| (*rng.pick(KEYS), rng.range(100, 110))).collect();
+                    for (k, x) in &batch {
+                        model_list.push((k.to_string(), Val::int(*x as i128)));
+                        model_map.insert(k.to_string(), Val::int(*x as i128));
+                    }
+                    kw = kw.extend(batch.clone());
+                    mb = mb.extend(batch.clone());
+                    ops.push(format!("extend {:?}", batch));
+                }
+            }
+            if kw.len() != model_list.len() || mb.len() != model_map.len() || kw.is_empty() != model_list.is_empty() || mb.is_empty() != model_map.is_empty() {
+                len_ok = false;
+            }
         }
-        ctx.class(&format!("builders/{}", n));
+        ctx.class(&format!("builders/{}ops{}", n, if ops.iter().any(|o| o.starts_with("extend")) { "/extend" } else { "" }));
+        if !len_ok {
+            ctx.viol("C20:builder:len", "len()/is_empty() of a builder disagree with the pairs that were put in", json!({"operations": ops}));
+        }
+        let as_struct = rng.chance(1, 4);
         let l = kw.build();
         let want_l = if model_list.is_empty() { Val::Nil } else { Val::list(model_list.iter().map(|(k, v)| Val::Tuple(vec![Val::atom(k), v.clone()])).collect()) };
-        let m = mb.build();
+        let m = if as_struct {
+            model_map.insert("__struct__".to_string(), Val::atom("Elixir.Verif.Built"));
+            mb.build_struct("Verif.Built")
+        } else {
+            mb.build()
+        };
         let want_m = Val::Map(model_map.iter().map(|(k, v)| (Val::atom(k), v.clone())).collect());
         for (what, got, want) in [("KeywordListBuilder", &l, &want_l), ("AtomKeyMapBuilder", &m, &want_m)] {
-            if !val_of(got).same(want) {
-                ctx.viol(&format!("C20:builder:{}", what), "the built term is not the keys/values that were put in", json!({"built": val_of(got).show(), "model": want.show()}));
+            let same = match (val_of(got), want) {
+                (Val::Map(a), Val::Map(b)) => a.len() == b.len() && b.iter().all(|(k, v)| a.iter().any(|(k2, v2)| k2.same(k) && v2.same(v))),
+                (a, b) => a.same(b),
+            };
+            if !same {
+                ctx.viol(&format!("C20:builder:{}", what), "the built term is not the keys/values that were put in", json!({"operations": ops, "built": val_of(got).show(), "model": want.show()}));
             }
             if let Some(w) = erltf::encode(got).ok().and_then(|b| erltf::decode(&b).ok()) {
-                if !val_of(&w).same(want) {
+                if !val_of(&w).same(&val_of(got)) {
                     ctx.viol(&format!("C20:builder-wire:{}", what), "the built term changes across the wire", json!({"built": val_of(got).show(), "after": val_of(&w).show()}));
                 }
             }
@@ -614,7 +693,7 @@ fn derived_checks(ctx: &Ctx, rng: &mut Rng) {
 struct Wrapped(Vec<DRaw>);
 
 pub fn run(ctx: &Ctx) {
-    ctx.rule("cases = every Elixir wrapper (Range, MapSet, Date, Time, NaiveDateTime, DateTime, 12 exception structs, derive(ElixirStruct) mappings incl. raw-identifier fields, no fields, nested mappings and fields named like words of the format) with field values from the extremes grid + random values, converted to a term and back in memory and across encode/decode; mutated terms (missing key, wrong type, out-of-range / negative / big integer, other struct) must be rejected or accepted without fabricating a field; Range len/contains/iteration/size_hint against an i128 reference over a bounds x steps grid incl. extremes (debug and release builds); proplist<->map helpers on well-formed proplists with distinct keys; keyword-list / atom-key-map builders; distinct = distinct (wrapper, value class) / (range class) / (mutation kind) labels");
+    ctx.rule("cases = every Elixir wrapper (Range, MapSet, Date, Time, NaiveDateTime, DateTime, 12 exception structs, derive(ElixirStruct) mappings incl. raw-identifier fields, no fields, nested mappings and fields named like words of the format) with field values from the extremes grid + random values, converted to a term and back in memory and across encode/decode; mutated terms (missing key, wrong type, out-of-range / negative / big integer, other struct) must be rejected or accepted without fabricating a field; Range len/contains/iteration/size_hint against an i128 reference over a bounds x steps grid incl. extremes (debug and release builds); proplist<->map helpers on well-formed proplists with distinct keys; keyword-list / atom-key-map builders driven through every method (put/insert in all flavours, conditional ones, extend with keys already present or repeated, build / build_struct) against a model; distinct = distinct (wrapper, value class) / (range class) / (mutation kind) labels");
     ctx.assume("ElixirRange::len saturates at usize::MAX for MIN..MAX//1 (2^64 elements) in the reference; members of sets/exceptions are compared by denoted value across the wire");
     let mut rng = Rng::derive(ctx.seed, 20, 1);
     range_checks(ctx, &mut rng);
